@@ -234,27 +234,39 @@ def Conforms : List TCmd → List TCmd → Prop
   | l :: ls, o :: os => sameOp l o ∧ Conforms ls os
   | _, _ => True
 
+theorem inserted_offsets (l : List TCmd) (h : l.all (·.offset) = true) : Inserted [] l := by
+  induction l with
+  | nil => exact .nil
+  | cons x xs ih =>
+    simp only [List.all_cons, Bool.and_eq_true] at h
+    exact .ins x h.1 (ih h.2)
+
+theorem conforms_refl (l : List TCmd) : Conforms l l := by
+  induction l with
+  | nil => simp [Conforms]
+  | cons x xs ih => exact ⟨⟨rfl, rfl⟩, ih⟩
+
 theorem offsetInsert_spec (lay seq : List TCmd) {out : List TCmd} {fl : List Bool}
     (h : offsetInsert lay seq = some (out, fl)) :
-    Conforms lay out ∧
-    (lay.length ≤ seq.length ∨ out.length = lay.length ∨ seq.length ≤ out.length) ∧
-    lay.length ≤ out.length ∧
-    fl.length ≤ (lay.filter (·.offset)).length := by
+    Conforms lay out ∧ lay.length ≤ out.length ∧ fl.length = (lay.filter (·.offset)).length ∧
+    Inserted seq out := by
   induction lay generalizing seq out fl with
   | nil =>
     simp only [offsetInsert, Option.some.injEq, Prod.mk.injEq] at h
     obtain ⟨rfl, rfl⟩ := h
-    simp [Conforms]
+    simp [Conforms, Inserted.refl]
   | cons l ls ih =>
     cases seq with
     | nil =>
-      simp only [offsetInsert, Option.some.injEq, Prod.mk.injEq] at h
-      obtain ⟨rfl, rfl⟩ := h
-      refine ⟨?_, by simp, by simp, by simp⟩
-      clear ih
-      induction ls generalizing l with
-      | nil => simp [Conforms, sameOp]
-      | cons m ms ihm => exact ⟨⟨rfl, rfl⟩, ihm m⟩
+      simp only [offsetInsert] at h
+      by_cases ha : (l :: ls).all (·.offset) = true
+      · simp only [ha, if_true, Option.some.injEq, Prod.mk.injEq] at h
+        obtain ⟨rfl, rfl⟩ := h
+        refine ⟨conforms_refl _, Nat.le_refl _, ?_, inserted_offsets _ ha⟩
+        rw [List.length_map, List.filter_eq_self.2]
+        intro a ha'
+        exact (List.all_eq_true.1 ha) a ha'
+      · simp [ha] at h
     | cons u us =>
       simp only [offsetInsert] at h
       by_cases ho : l.offset = true
@@ -264,10 +276,9 @@ theorem offsetInsert_spec (lay seq : List TCmd) {out : List TCmd} {fl : List Boo
           simp only [Prod.mk.injEq] at heq
           obtain ⟨rfl, rfl⟩ := heq
           have := ih (u :: us) hrec
-          refine ⟨⟨⟨rfl, rfl⟩, this.1⟩, ?_, ?_, ?_⟩
-          · simp only [List.length_cons] at *; omega
-          · simp only [List.length_cons] at *; omega
-          · simp only [List.length_cons, List.filter_cons, ho, if_true] at *; omega
+          refine ⟨⟨⟨rfl, rfl⟩, this.1⟩, ?_, ?_, .ins l ho this.2.2.2⟩
+          · simp only [List.length_cons]; omega
+          · simp only [List.length_cons, List.filter_cons, ho, if_true]; omega
         · simp only [ho, hne, if_true, if_false, Option.map_eq_some_iff] at h
           obtain ⟨⟨s, f⟩, hrec, heq⟩ := h
           simp only [Prod.mk.injEq] at heq
@@ -277,10 +288,9 @@ theorem offsetInsert_spec (lay seq : List TCmd) {out : List TCmd} {fl : List Boo
             constructor
             · exact Classical.byContradiction fun hc => hne (Or.inl hc)
             · exact Classical.byContradiction fun hc => hne (Or.inr hc)
-          refine ⟨⟨hs, this.1⟩, ?_, ?_, ?_⟩
-          · simp only [List.length_cons] at *; omega
-          · simp only [List.length_cons] at *; omega
-          · simp only [List.length_cons, List.filter_cons, ho, if_true] at *; omega
+          refine ⟨⟨hs, this.1⟩, ?_, ?_, .keep u this.2.2.2⟩
+          · simp only [List.length_cons]; omega
+          · simp only [List.length_cons, List.filter_cons, ho, if_true]; omega
       · by_cases hne : l.cls ≠ u.cls ∨ l.wires ≠ u.wires
         · simp [ho, hne] at h
         · simp only [ho, hne, if_false, Bool.false_eq_true, Option.map_eq_some_iff] at h
@@ -292,55 +302,9 @@ theorem offsetInsert_spec (lay seq : List TCmd) {out : List TCmd} {fl : List Boo
             constructor
             · exact Classical.byContradiction fun hc => hne (Or.inl hc)
             · exact Classical.byContradiction fun hc => hne (Or.inr hc)
-          refine ⟨⟨hs, this.1⟩, ?_, ?_, ?_⟩
-          · simp only [List.length_cons] at *; omega
-          · simp only [List.length_cons] at *; omega
-          · simp only [List.length_cons, List.filter_cons, ho] at *
-            simpa using this.2.2.2
-
-/-- when the user's sequence is not exhausted before the layout, the output is the user's sequence with
-loop-offset gates of the layout inserted (nothing else is added, nothing removed or reordered) -/
-theorem offsetInsert_inserted (lay seq : List TCmd) {out : List TCmd} {fl : List Bool}
-    (h : offsetInsert lay seq = some (out, fl)) :
-    Inserted seq out ∨ ∃ pre tail, out = pre ++ tail ∧ Inserted seq pre ∧ tail ≠ [] ∧ tail.IsSuffix lay := by
-  induction lay generalizing seq out fl with
-  | nil =>
-    simp only [offsetInsert, Option.some.injEq, Prod.mk.injEq] at h
-    obtain ⟨rfl, rfl⟩ := h
-    exact Or.inl (Inserted.refl _)
-  | cons l ls ih =>
-    cases seq with
-    | nil =>
-      simp only [offsetInsert, Option.some.injEq, Prod.mk.injEq] at h
-      obtain ⟨rfl, rfl⟩ := h
-      exact Or.inr ⟨[], l :: ls, rfl, .nil, by simp, List.suffix_refl _⟩
-    | cons u us =>
-      simp only [offsetInsert] at h
-      by_cases ho : l.offset = true
-      · by_cases hne : l.cls ≠ u.cls ∨ l.wires ≠ u.wires
-        · simp only [ho, hne, if_true, Option.map_eq_some_iff] at h
-          obtain ⟨⟨s, f⟩, hrec, heq⟩ := h
-          simp only [Prod.mk.injEq] at heq
-          obtain ⟨rfl, rfl⟩ := heq
-          rcases ih (u :: us) hrec with hi | ⟨pre, tail, rfl, hi, hne', hsuf⟩
-          · exact Or.inl (.ins l ho hi)
-          · exact Or.inr ⟨l :: pre, tail, rfl, .ins l ho hi, hne', hsuf.trans (List.suffix_cons _ _)⟩
-        · simp only [ho, hne, if_true, if_false, Option.map_eq_some_iff] at h
-          obtain ⟨⟨s, f⟩, hrec, heq⟩ := h
-          simp only [Prod.mk.injEq] at heq
-          obtain ⟨rfl, rfl⟩ := heq
-          rcases ih us hrec with hi | ⟨pre, tail, rfl, hi, hne', hsuf⟩
-          · exact Or.inl (.keep u hi)
-          · exact Or.inr ⟨u :: pre, tail, rfl, .keep u hi, hne', hsuf.trans (List.suffix_cons _ _)⟩
-      · by_cases hne : l.cls ≠ u.cls ∨ l.wires ≠ u.wires
-        · simp [ho, hne] at h
-        · simp only [ho, hne, if_false, Bool.false_eq_true, Option.map_eq_some_iff] at h
-          obtain ⟨⟨s, f⟩, hrec, heq⟩ := h
-          simp only [Prod.mk.injEq] at heq
-          obtain ⟨rfl, rfl⟩ := heq
-          rcases ih us hrec with hi | ⟨pre, tail, rfl, hi, hne', hsuf⟩
-          · exact Or.inl (.keep u hi)
-          · exact Or.inr ⟨u :: pre, tail, rfl, .keep u hi, hne', hsuf.trans (List.suffix_cons _ _)⟩
+          refine ⟨⟨hs, this.1⟩, ?_, ?_, .keep u this.2.2.2⟩
+          · simp only [List.length_cons]; omega
+          · simp only [List.filter_cons, ho]; simpa using this.2.2.1
 
 /-! ## phase compensation (angles in units of π) -/
 
